@@ -228,3 +228,17 @@ M("mpg_cpgn_dp_lost", ["C11"], "contained PGN loses the data page bit in the hea
   ("j1939/j1939_22.py", "data.append( (cpg['tos'] << 5) | (cpg['tf'] << 2) | ((cpg['cpgn'] >> 16) & 0x3) )", "data.append( (cpg['tos'] << 5) | (cpg['tf'] << 2) )"))
 M("mpg_unpack_stops_early", ["C11"], "unpacking loop stops when 8 or fewer bytes remain",
   ("j1939/j1939_22.py", "        while True:\n            if len(data) <= 4:\n                break", "        while True:\n            if len(data) <= 8:\n                break"))
+
+M("claim_normal_contention_ignored", ["C04"], "contention in NORMAL state ignored",
+  ("j1939/controller_application.py", "            or (self._device_address_state == ControllerApplication.State.NORMAL and src_address == self._device_address)\n", "            or (False and src_address == self._device_address)\n"))
+M("claim_name_low32", ["C04"], "NAME compared on the low 32 bits",
+  ("j1939/controller_application.py", "            if self._name.value > contenders_name.value:", "            if (self._name.value & 0xFFFFFFFF) > (contenders_name.value & 0xFFFFFFFF):"))
+M("claim_state_after_send", ["C04"], "state set after the claim is sent (D11 reverted)",
+  ("j1939/controller_application.py", "                    self._device_address_state = ControllerApplication.State.WAIT_VETO\n                    self._send_address_claimed(self._device_address_announced)\n",
+   "                    self._send_address_claimed(self._device_address_announced)\n                    self._device_address_state = ControllerApplication.State.WAIT_VETO\n"))
+M("claim_no_cannot_claim_frame", ["C04"], "loser does not announce cannot-claim",
+  ("j1939/controller_application.py", "                    self._send_address_claimed(j1939.ParameterGroupNumber.Address.NULL) # send CANNOT CLAIM", "                    pass"))
+M("claim_equal_name_yields", ["C04"], "higher-priority CA does not repeat its claim while waiting for veto",
+  ("j1939/controller_application.py", "                    # we are in the middle of the claim-process\n                    self._send_address_claimed(self._device_address_announced)", "                    # we are in the middle of the claim-process\n                    pass"))
+M("claim_aac_from_wrong_bit", ["C04", "C15"], "arbitrary-address-capable parsed from bit 62",
+  ("j1939/name.py", "        self.arbitrary_address_capable = (value >> 63) & 1", "        self.arbitrary_address_capable = (value >> 62) & 1"))
